@@ -32,6 +32,16 @@ func GenerateMapKey(r *lp.Rng, index int) *Design {
 		me.HTTP.Params = append(me.HTTP.Params, Mapped{Attr: "entries"})
 	}
 	s.Methods = append(s.Methods, me)
+	if k := index % len(MapKeyPrims); k == 2 || k == 3 {
+		// a streaming (WebSocket) endpoint with two routes
+		s.Methods = append(s.Methods, &Method{Name: "watch", Stream: "result",
+			Result: &Att{Type: &Type{IsObject: true, Object: []*Field{{Name: "tick", Att: &Att{Type: &Type{Prim: "Int"}}}}}},
+			HTTP:   &HTTPMap{Verb: "GET", Path: "/watch", MorePaths: []string{"/watch2"}}})
+	}
+	if index%len(MapKeyPrims) < 2 {
+		// next to the HTTP service, a service without any transport mapping (the example generator walks all services)
+		d.Services = append(d.Services, &Service{Name: "plain", Methods: []*Method{{Name: "run", Payload: &Att{Type: &Type{Prim: "String"}}}}})
+	}
 	_ = r
 	return d
 }
